@@ -5,6 +5,7 @@ import EaselModel.Alphabet.CustomLemmas
 import EaselModel.Alphabet.CatLemmas
 import EaselModel.Alphabet.SqLemmas
 import EaselModel.Alphabet.DealignLemmas
+import EaselModel.Alphabet.CustomDegen
 /-! # C08 — property theorems (statements + glue only; lemmas live in Alphabet/*.lean)
 
 `G.dna`, `G.rna`, `G.amino`, `G.coins`, `G.dice` are the tables dumped from the code under check on this run
@@ -228,6 +229,18 @@ theorem custom_digitize_textize_digitize (a : Alphabet) (h : Built a) (seq : Lis
     ∃ t, a.textize (a.digitize seq).2 (seq.filterMap a.code).length = some t ∧
       a.digitize t = (.ok, (a.digitize seq).2) :=
   digitize_textize_digitize a (built_wf a h) seq
+
+/-- the degeneracy tables of a freshly created custom alphabet are well-formed (so `avg_score_is_mean`,
+    `count_splits_equally` … apply to it): a canonical residue denotes itself, `any` (code Kp−3) all K residues -/
+theorem custom_create_wfdegen (syms : List Nat) (K : Nat) (a : Alphabet) (hK : 1 ≤ K) (hKp : K + 4 ≤ syms.length)
+    (h : createCustom syms K syms.length = some a) :
+    a.WFDegen ∧ (∀ x, x < K → a.degenSet x = [x]) ∧ a.degenSet (syms.length - 3) = List.range K :=
+  createCustom_wfdegen syms K a hK hKp h
+
+/-- the input-map operations never disturb the degeneracy tables -/
+theorem custom_inmap_ops_keep_degen (a : Alphabet) (h : a.WFDegen) (sym c : Nat) (chars : List Nat) :
+    (a.setEquiv sym c).2.WFDegen ∧ a.setCaseInsensitive.2.WFDegen ∧ (a.setIgnored chars).WFDegen :=
+  ⟨setEquiv_wfdegen a h sym c, setCaseInsensitive_wfdegen a h, setIgnored_wfdegen a h chars⟩
 
 /-! ## degenerate scores and counts (over ℚ: the code as a rational function; IEEE rounding is L0, compared bit-exactly
       against the real code by the correspondence run) -/
